@@ -161,6 +161,70 @@ Theorem c20_migration_only_on_request_with_backup_partial :
 Proof. exact migrate_keeps_partial. Qed.
 Print Assumptions c20_migration_only_on_request_with_backup_partial.
 
+(* ---- the write set: every effect of every command lies inside the write set of the DESIGNATED budget ---- *)
+(* [write_set o c st] (Model.v) is the specification: report files (may be overwritten), files that may be created when
+   missing, append-only files, allowed renames, directories — computed from the command, its flags, the budget it
+   designates (explicit config directory / TALLY_CONFIG / auto-detection) and the budget's content BEFORE the command.
+   Holds for every command, every designation, every budget, every oracle. *)
+Theorem c20_effects_within_write_set :
+  forall o c st e, In e (effects o c st) -> effect_within (write_set o c st) e = true.
+Proof. exact effects_within_write_set. Qed.
+Print Assumptions c20_effects_within_write_set.
+
+(* for the read-only commands that write set has nothing but report files (and the output directory) *)
+Theorem c20_readonly_write_set :
+  forall o c st, readonly c = true ->
+    ws_create (write_set o c st) = [] /\ ws_append (write_set o c st) = [] /\ ws_rename (write_set o c st) = [] /\
+    ws_report (write_set o c st) = report_paths o c st.
+Proof. exact readonly_write_set. Qed.
+Print Assumptions c20_readonly_write_set.
+
+(* ---- which budget a typed path designates (os.path.abspath over path components) ------------------------- *)
+(* if the argument, however spelled and from whatever working directory, resolves to <budget dir>/rr/config, the
+   designated budget is the one with prefix rr/ — folder names are opaque strings (no glob / format meaning) *)
+Theorem c20_designation_resolved :
+  forall base cwd ab arg rr,
+    resolve cwd ab arg = (base ++ rr ++ ["config"])%list -> designate base cwd ab arg = Some (join_prefix rr).
+Proof. exact designate_resolved. Qed.
+Print Assumptions c20_designation_resolved.
+
+(* trailing slash, "./", ".", "//", "x/.." never change what a path resolves to *)
+Theorem c20_resolve_spelling_invariant :
+  forall cwd ab arg,
+    resolve cwd ab (arg ++ [""])%list = resolve cwd ab arg /\
+    resolve cwd ab (arg ++ ["."])%list = resolve cwd ab arg /\
+    resolve cwd false ("." :: arg) = resolve cwd false arg /\
+    (forall b, resolve cwd ab (arg ++ "" :: b)%list = resolve cwd ab (arg ++ b)%list) /\
+    (forall x b, clean x -> resolve cwd ab (arg ++ x :: ".." :: b)%list = resolve cwd ab (arg ++ b)%list).
+Proof.
+  intros cwd ab arg. repeat split.
+  - apply resolve_trailing_slash.
+  - apply resolve_trailing_dot.
+  - intros b. apply resolve_double_slash.
+  - intros x b Hx. now apply resolve_down_up.
+Qed.
+Print Assumptions c20_resolve_spelling_invariant.
+
+(* config, config/, ./config, ./config/, "." from inside the config directory, the absolute path with or without
+   slash from anywhere, <folder>/config[/] from the parent directory: one and the same budget *)
+Theorem c20_designation_spellings :
+  forall base rr, Forall clean base -> Forall clean rr ->
+  let target := Some (join_prefix rr) in
+  let cfg := (rr ++ ["config"])%list in
+  designate base base false cfg = target /\
+  designate base base false (cfg ++ [""])%list = target /\
+  designate base base false ("." :: cfg) = target /\
+  designate base base false ("." :: cfg ++ [""])%list = target /\
+  designate base (base ++ cfg)%list false ["."] = target /\
+  designate base (base ++ cfg)%list false [] = target /\
+  (forall other, designate base other true (base ++ cfg)%list = target) /\
+  (forall other, designate base other true (base ++ cfg ++ [""])%list = target) /\
+  (forall parent name, base = (parent ++ [name])%list ->
+     designate base parent false (name :: cfg) = target /\
+     designate base parent false (name :: cfg ++ [""])%list = target).
+Proof. exact designation_spellings. Qed.
+Print Assumptions c20_designation_spellings.
+
 (* ---- non-vacuity ------------------------------------------------------------------------------------ *)
 (* the witness budget: init really migrates, the CSV ends up as the backup, the old backup is lost *)
 Example ex_init_migrates :
@@ -198,4 +262,26 @@ Example ex_up_migrate :
     = Some ("year: 2025" ++ MIG_SUFFIX) /\
   fget (run w_oracle (Up None true true FHtml None) w_up_state) "config/merchants.rules" = Some "[Netflix]" /\
   fget (run w_oracle (Up None false true FHtml None) w_up_state) "config/merchants.rules" = Some "[Mine]".
+Proof. vm_compute. repeat split. Qed.
+
+(* the write set of `up --migrate` on the witness budget: report + output dir + the migration's four paths *)
+Example ex_write_set :
+  write_set w_oracle (Up None true true FHtml None) w_up_state =
+  {| ws_report := ["output/spending_summary.html"];
+     ws_create := ["config/merchants.rules"; "config/merchant_categories.csv.bak"];
+     ws_append := ["config/settings.yaml"];
+     ws_rename := [("config/merchant_categories.csv", "config/merchant_categories.csv.bak")];
+     ws_mkdir := ["output"] |} /\
+  effects w_oracle (Up None true true FHtml None) w_up_state <> [] /\
+  write_set w_oracle Discover w_up_state = ws_empty.
+Proof. vm_compute. repeat split. discriminate. Qed.
+
+(* a folder name full of glob / format metacharacters is just a name; new layout; spelled with a trailing slash
+   from the parent directory *)
+Example ex_designate :
+  designate ["home"; "me"; "budget [2025] {0} *?"] ["home"; "me"] false ["budget [2025] {0} *?"; "tally"; "config"; ""]
+  = Some "tally/" /\
+  designate ["home"; "me"; "b"] ["home"; "me"; "b"; "config"] false ["."] = Some "" /\
+  designate ["home"; "me"; "b"] ["tmp"] true [""; "home"; "me"; "b"; "x"; ".."; "config"; ""] = Some "" /\
+  designate ["home"; "me"; "b"] ["home"; "me"; "b"] false ["data"] = None.
 Proof. vm_compute. repeat split. Qed.
